@@ -435,7 +435,7 @@ func init() {
 			h := vc.get(st, "E$uint8")
 			var sum []Term
 			for i := 0; i < n; i++ {
-				c := sel(h, add(b.C[0], itoa(int64(i))))
+				c := vc.sel(h, add(b.C[0], itoa(int64(i))))
 				vc.assume(implies(rch, and(sx("<=", "0", c), sx("<=", c, "255"))))
 				if i == n-1 {
 					sum = append(sum, c)
